@@ -112,6 +112,7 @@ enum Fam {
   Steady,
   Toggle,
   Moved,
+  Rewrite,
 }
 
 impl Fam {
@@ -127,6 +128,7 @@ impl Fam {
       Fam::Steady => "steady",
       Fam::Toggle => "toggle",
       Fam::Moved => "moved",
+      Fam::Rewrite => "rewrite",
     }
   }
   fn id(self) -> u64 {
@@ -154,6 +156,11 @@ struct Case {
   /// right after the previous VBlank flag was returned (inside VBlank); odd-numbered
   /// frames use `img`/`regs`/`oam`.  None: one scene for all frames.
   then: Option<(usize, Regs, [u8; 160])>,
+  /// registers are written only where the new scene differs from the one in force
+  delta: bool,
+  /// registers programmed (all of them) at power-on before `regs` is reached by writing only
+  /// the ones that differ, without any time passing in between
+  pre: Option<Regs>,
 }
 
 const BGP_DEF: u8 = 0xE4;
@@ -242,11 +249,12 @@ fn scene_class(c: &Case) -> String {
     Fam::Obj1 | Fam::Obj2 | Fam::ObjLine => format!("scene=obj size={}", if l & 0x04 != 0 { "8x16" } else { "8x8" }),
     Fam::Palette | Fam::Lcdc | Fam::Steady | Fam::Toggle => "scene=mixed".to_string(),
     Fam::Moved => "scene=obj-moved".to_string(),
+    Fam::Rewrite => "scene=register-rewritten".to_string(),
   }
 }
 
 fn new_case(fam: Fam, img: usize, regs: Regs) -> Case {
-  Case { fam, img, regs, oam: [0u8; 160], batch: 456, frames: 1, pclass: String::new(), excluded: None, void: false, then: None }
+  Case { fam, img, regs, oam: [0u8; 160], batch: 456, frames: 1, pclass: String::new(), excluded: None, void: false, then: None, delta: false, pre: None }
 }
 
 const X1_SET: [u16; 10] = [0, 1, 7, 8, 9, 80, 159, 160, 167, 168];
@@ -408,6 +416,42 @@ fn build(fam: Fam, a: &[u16]) -> Case {
       c.pclass = format!("size={} moved={} flipped={}", if tall != 0 { "8x16" } else { "8x8" }, a[2] != a[3], a[4] != 0);
       c
     },
+    // [img, final scene, which register held another value before, a frame in between]
+    // the scene of the judged frame is reached by one register write from a scene that differs
+    // in that register only (window parked below / beside the screen and brought back, a layer
+    // switched on, a scroll or palette changed): the frame depends on the values in force, not
+    // on how they got there
+    Fam::Rewrite => {
+      let fin = [regs(0xF3, 0x0D, 0x25, 87, 72), regs(0xF3, 0, 0, 7, 0), regs(0xB3, 3, 200, 99, 40)][a[1] as usize % 3];
+      let mut parked = fin.clone();
+      let what = match a[2] {
+        0 => { parked.wy = 150; "wy 150>" },
+        1 => { parked.wy = 144; "wy 144>" },
+        2 => { parked.wy = 255; "wy 255>" },
+        3 => { parked.wx = 167; "wx 167>" },
+        4 => { parked.wx = 200; "wx 200>" },
+        5 => { parked.lcdc &= !0x20; "window off>on" },
+        6 => { parked.lcdc &= !0x02; "objects off>on" },
+        7 => { parked.lcdc ^= 0x10; "tile data switched" },
+        8 => { parked.scx = parked.scx.wrapping_add(8); "scx" },
+        9 => { parked.scy = parked.scy.wrapping_add(100); "scy" },
+        10 => { parked.bgp = 0x1B; "bgp" },
+        _ => { parked.wy = fin.wy + 8; "wy on-screen>" },
+      };
+      let between = a[3] != 0;
+      let mut c = new_case(fam, img, if between { parked.clone() } else { fin.clone() });
+      c.oam = rich_oam(true);
+      c.delta = true;
+      if between {
+        c.frames = 2;
+        c.then = Some((img, fin.clone(), c.oam));
+      } else {
+        c.pre = Some(parked.clone());
+      }
+      c.excluded = glitch_exclusion(&fin).or(glitch_exclusion(&parked));
+      c.pclass = format!("rewritten={} frame-between={}", what, between);
+      c
+    },
     // [img, lcdc bits 1-6, bit toggled for the second frame, oam layout, batch]
     Fam::Toggle => {
       let lcdc = 0x81 | ((a[1] as u8) << 1);
@@ -545,6 +589,8 @@ fn stages(thorough: bool) -> Vec<Stage> {
   st.push(Stage { name: "steady", fam: Fam::Steady, axes: vec![("image", vec![0]), ("scene", if thorough { all(8) } else { vec![0, 7] }), ("lcdc", all(4)), ("batch", BATCHES.to_vec()), ("alternate scenes", bits.clone())] });
   // ---- the same pixels elsewhere in the next frame
   st.push(Stage { name: "obj-moved", fam: Fam::Moved, axes: vec![("tall", bits.clone()), ("tile", vec![2, 5, 8, 0x31]), ("position in frame 1", all(4)), ("position in frame 2", all(4)), ("mirrored in frame 2", bits.clone())] });
+  // ---- the scene reached by rewriting one register
+  st.push(Stage { name: "register-rewritten", fam: Fam::Rewrite, axes: vec![("image", if thorough { imgs3.clone() } else { vec![0] }), ("final scene", all(3)), ("register that held another value", all(12)), ("a frame in between", bits.clone())] });
   // ---- one LCDC bit changed between consecutive frames, every bit, both directions
   st.push(Stage { name: "lcdc-toggle", fam: Fam::Toggle, axes: vec![("image", if thorough { imgs3.clone() } else { vec![0] }), ("lcdc bits1-6", all(64)), ("toggled bit", vec![1, 2, 3, 4, 5, 6]), ("oam layout", bits.clone()), ("batch", if thorough { vec![4, 456, 912] } else { vec![456] })] });
   st
@@ -617,6 +663,34 @@ fn program(r: &Regs) -> VideoState {
   let mut v = VideoState::new();
   apply(&mut v, r);
   v
+}
+
+/// write only the registers in which `to` differs from `from`
+fn apply_delta(v: &mut VideoState, from: &Regs, to: &Regs) {
+  if from.lcdc != to.lcdc {
+    v.set_lcd_control(to.lcdc);
+  }
+  if from.scx != to.scx {
+    v.set_scroll_x(to.scx);
+  }
+  if from.scy != to.scy {
+    v.set_scroll_y(to.scy);
+  }
+  if from.wx != to.wx {
+    v.set_window_x(to.wx);
+  }
+  if from.wy != to.wy {
+    v.set_window_y(to.wy);
+  }
+  if from.bgp != to.bgp {
+    v.set_bgp(to.bgp);
+  }
+  if from.obp0 != to.obp0 {
+    v.set_obj_palette(0, to.obp0);
+  }
+  if from.obp1 != to.obp1 {
+    v.set_obj_palette(1, to.obp1);
+  }
 }
 
 fn apply(v: &mut VideoState, r: &Regs) {
@@ -710,6 +784,13 @@ fn scene_json(img: usize, r: &Regs, oam: &[u8; 160]) -> J {
 fn case_json(c: &Case, stage: &str, index: u64, frame: usize) -> J {
   let mut j = J::obj().set("stage", J::s(stage)).set("index", J::u(index)).set("batch_clocks", J::u(c.batch as u64)).set("presented_frame", J::u(frame as u64));
   j.put("scene", scene_json(c.img, &c.regs, &c.oam));
+  if let Some(p) = &c.pre {
+    j.put("registers_programmed_at_power_on_before_the_scene", scene_json(c.img, p, &c.oam));
+    j.put("then", J::s("only the registers in which `scene` differs are written, immediately"));
+  }
+  if c.delta && c.then.is_some() {
+    j.put("note", J::s("between frames only the registers that differ are written"));
+  }
   if let Some((img2, r2, oam2)) = &c.then {
     j.put("scene_of_even_frames", scene_json(*img2, r2, oam2));
     j.put("how", J::s("power on with `scene`; each time the VBlank flag is returned, program the other scene through the setters (inside VBlank) and pass its VRAM/OAM from then on"));
@@ -753,7 +834,14 @@ fn run_case(w: &mut Worker, c: &Case, stage_no: u64, stage: &str, index: u64, ct
     }
   }
   ctx.sample(|| case_json(c, stage, index, 1).set("reference_features", J::s(feature_names(f))));
-  let mut v = program(&c.regs);
+  let mut v = match &c.pre {
+    Some(p) => {
+      let mut v = program(p);
+      apply_delta(&mut v, p, &c.regs);
+      v
+    },
+    None => program(&c.regs),
+  };
   let mut any_mismatch = false;
   let mut first_frame_mismatch = false;
   let mut first_suffix = "";
@@ -766,7 +854,16 @@ fn run_case(w: &mut Worker, c: &Case, stage_no: u64, stage: &str, index: u64, ct
     let vram = &w.imgs[img];
     if frame > 1 && c.then.is_some() {
       // the previous VBlank flag has just been returned: still inside VBlank
-      apply(&mut v, regs);
+      if c.delta {
+        let prev = match (&c.then, frame % 2) {
+          (Some(_), 0) => &c.regs,
+          (Some(t), _) => &t.1,
+          _ => &c.regs,
+        };
+        apply_delta(&mut v, prev, regs);
+      } else {
+        apply(&mut v, regs);
+      }
       r7::render(vram, oam, regs, Variant::Reference, &mut w.exp);
     }
     if !drive_to_vblank(&mut v, vram, &w.oam, c.batch) {
